@@ -789,6 +789,9 @@ func (f *frame) applyContract(fs *FuncSpec, actuals []CV, res *types.Tuple, st *
 	withAliases(vars, rename)
 	envPost := &Env{g: g, st: st, old: pre, vars: vars, pc: pc, hyp: true}
 	for _, c := range ens {
+		if strings.Contains(c.Text, "local(") {
+			continue // speaks about the callee's own locals: not part of what callers may assume
+		}
 		h := envPost.tr(c.E, true)
 		envPost.want(h, "Bool", c.E)
 		g.s.assumeUnder(pc, h.S)
